@@ -73,6 +73,9 @@ pub fn edge_keys<S: MlDsa>(seed: u64, n: usize, nfull: usize, out: &mut Out) {
             for r in 0..S::K { for k in 0..256 {
                 let tp = w[r][k] + s2[r][k] as i64;
                 if tp == refmath::Q { cls |= 1; } else if tp > refmath::Q { cls |= 2; } else if tp < 0 { cls |= 4; }
+                // first / last coefficient of a row within eta of a Power2Round rounding boundary: a slip that touches only
+                // one coefficient position (an off-by-one loop bound) changes t1 exactly on such keys
+                if k == 0 || k == 255 { let r = refmath::modq(tp) % 8192; if (r - 4096).abs() <= S::ETA as i64 { cls |= if k == 0 { 16 } else { 32 }; } }
             } }
             let score = cls.count_ones() * 100 + cls;
             if score > 0 { found.lock().unwrap().push((score, xi)); }
@@ -83,7 +86,7 @@ pub fn edge_keys<S: MlDsa>(seed: u64, n: usize, nfull: usize, out: &mut Out) {
     // one seed of EVERY rarity class goes first (those are recomputed in full by TLC): a slip that keeps generated and
     // derived keys consistent with each other is only visible against the specification
     let mut front: Vec<(u32, [u8; 32])> = vec![];
-    for bit in [1u32, 2, 4, 8] { if let Some(i) = edges.iter().position(|e| (e.0 % 100) & bit != 0 && !front.iter().any(|f| f.1 == e.1)) { front.push(edges[i]); } }
+    for bit in [1u32, 2, 4, 8, 16, 32] { if let Some(i) = edges.iter().position(|e| (e.0 % 100) & bit != 0 && !front.iter().any(|f| f.1 == e.1)) { front.push(edges[i]); } }
     edges.retain(|e| !front.iter().any(|f| f.1 == e.1));
     let nclass = front.len();
     front.extend(edges);
